@@ -4,6 +4,8 @@ package main
 
 import (
 	"go/types"
+	"fmt"
+	"math"
 	"math/big"
 	"net"
 	"net/textproto"
@@ -481,4 +483,286 @@ func (e *Engine) globMatch(st *State, g GlobVal, s *Term) *Term {
 		e.sol.Assert(Implies(And(StrPrefixOf(KStr("*"), p), Not(metaSuf)), Eq(r, StrSuffixOf(suf, s))))
 	}
 	return r
+}
+
+// ---------- strconv.ParseFloat / Quote, strings.Fields, fmt.Sprintf ----------
+
+func init() {
+	// ok, kind (0 finite 1 +Inf 2 -Inf 3 NaN), numerator, denominator of the exact float64 value
+	defUF("parsefloat", []Sort{SStr}, []Sort{SBool, SInt, SInt, SInt}, func(a []any) []any {
+		f, err := strconv.ParseFloat(a[0].(string), 64)
+		if err != nil {
+			return []any{false, big.NewInt(0), big.NewInt(0), big.NewInt(1)}
+		}
+		switch {
+		case math.IsNaN(f):
+			return []any{true, big.NewInt(3), big.NewInt(0), big.NewInt(1)}
+		case math.IsInf(f, 1):
+			return []any{true, big.NewInt(1), big.NewInt(0), big.NewInt(1)}
+		case math.IsInf(f, -1):
+			return []any{true, big.NewInt(2), big.NewInt(0), big.NewInt(1)}
+		}
+		r := new(big.Rat)
+		r.SetFloat64(f)
+		return []any{true, big.NewInt(0), r.Num(), r.Denom()}
+	})
+	reg("strconv.ParseFloat", func(e *Engine, st *State, c *callCtx) bool {
+		s := c.str(e, st, 0)
+		r := e.ufCall(st, "parsefloat", s)
+		ok, kind, num, den := r[0], r[1], r[2], r[3]
+		var fv FloatVal
+		if s.K {
+			q := new(big.Rat)
+			if den.I.Sign() != 0 {
+				q.SetFrac(num.I, den.I)
+			}
+			fv = FloatVal{Kind: kind, V: KReal(q)}
+		} else {
+			e.sol.Assert(And(Le(KInt64(0), kind), Le(kind, KInt64(3)), Lt(KInt64(0), den)))
+			e.sol.Assert(Implies(Eq(s, KStr("")), Not(ok)))
+			// documented special spellings
+			e.sol.Assert(Implies(Or(Eq(s, KStr("Inf")), Eq(s, KStr("+Inf")), Eq(s, KStr("inf")), Eq(s, KStr("Infinity"))), And(ok, Eq(kind, KInt64(1)))))
+			e.sol.Assert(Implies(Or(Eq(s, KStr("NaN")), Eq(s, KStr("nan"))), And(ok, Eq(kind, KInt64(3)))))
+			v := e.freshVar("pf", SReal)
+			e.sol.Assert(Eq(v, Ite(Eq(kind, KInt64(0)), RDiv(ToReal(num), ToReal(den)), rZero)))
+			mx := KReal(maxF64)
+			e.sol.Assert(And(Le(RSub(rZero, mx), v), Le(v, mx)))
+			fv = FloatVal{Kind: kind, V: v}
+		}
+		return e.branch(st, []Alt{
+			{Cond: ok, Tag: "ParseFloat=ok", Do: func(s2 *State) { c.ret(s2, TupleVal{fv, IfaceVal{}}) }},
+			{Cond: Not(ok), Tag: "ParseFloat=err", Do: func(s2 *State) {
+				c.ret(s2, TupleVal{fKonst(new(big.Rat)), e.newError(s2, KStr("strconv.ParseFloat: parsing"))})
+			}},
+		})
+	})
+	defUF("quote", []Sort{SStr}, []Sort{SStr}, func(a []any) []any { return []any{strconv.Quote(a[0].(string))} })
+	reg("strconv.Quote", func(e *Engine, st *State, c *callCtx) bool {
+		c.ret(st, e.quote(st, c.str(e, st, 0)))
+		return true
+	})
+	reg("strings.Fields", func(e *Engine, st *State, c *callCtx) bool {
+		s := c.str(e, st, 0)
+		mk := func(s2 *State, parts []*Term) {
+			el := make([]Value, len(parts))
+			for i, p := range parts {
+				el[i] = p
+			}
+			var sl SliceVal
+			if len(el) == 0 {
+				// Fields returns an empty non-nil slice
+				id := s2.newObj(ArrayVal{}, nil)
+				sl = SliceVal{Obj: id, Off: KInt64(0), Len: KInt64(0), Cap: KInt64(0)}
+			} else {
+				id := s2.newObj(ArrayVal{E: el}, nil)
+				n := KInt64(int64(len(el)))
+				sl = SliceVal{Obj: id, Off: KInt64(0), Len: n, Cap: n}
+			}
+			c.ret(s2, sl)
+		}
+		if s.K {
+			var ts []*Term
+			for _, f := range strings.Fields(s.Str) {
+				ts = append(ts, KStr(f))
+			}
+			mk(st, ts)
+			return true
+		}
+		K := e.cfg.Params["FIELDS"]
+		if K == 0 {
+			K = 3
+		}
+		e.res.Assumptions["strings.Fields: ASCII white space only"]++
+		ws := "(re.+ (re.union (str.to_re \" \") (re.range \"\\u{9}\" \"\\u{d}\")))"
+		wsOpt := "(re.* (re.union (str.to_re \" \") (re.range \"\\u{9}\" \"\\u{d}\")))"
+		nonws := "(re.+ (re.union (re.range \"\\u{0}\" \"\\u{8}\") (re.range \"\\u{e}\" \"\\u{1f}\") (re.range \"\\u{21}\" \"\\u{ff}\")))"
+		var alts []Alt
+		for k := 0; k <= K+1; k++ {
+			var cat []*Term
+			var conds []*Term
+			var parts []*Term
+			lead := e.freshVar("ws", SStr)
+			conds = append(conds, &Term{S: "(str.in_re " + lead.S + " " + wsOpt + ")", Sort: SBool})
+			cat = append(cat, lead)
+			for i := 0; i < k; i++ {
+				f := e.freshVar("field", SStr)
+				conds = append(conds, &Term{S: "(str.in_re " + f.S + " " + nonws + ")", Sort: SBool})
+				parts = append(parts, f)
+				cat = append(cat, f)
+				sep := e.freshVar("ws", SStr)
+				if i < k-1 {
+					conds = append(conds, &Term{S: "(str.in_re " + sep.S + " " + ws + ")", Sort: SBool})
+				} else {
+					conds = append(conds, &Term{S: "(str.in_re " + sep.S + " " + wsOpt + ")", Sort: SBool})
+				}
+				cat = append(cat, sep)
+			}
+			conds = append(conds, Eq(s, Concat(cat...)))
+			ps := parts
+			if k == K+1 {
+				alts = append(alts, Alt{Cond: And(conds[:len(conds)-1]...), Tag: "fields>bound", Do: func(s2 *State) { unsup("UNWIND strings.Fields yields more than %d fields", K) }})
+				// the ">bound" shape: at least K+1 fields, rest arbitrary
+				rest := e.freshVar("rest", SStr)
+				alts[len(alts)-1].Cond = And(append(conds[:len(conds)-1], Eq(s, Concat(append(cat, rest)...)))...)
+				continue
+			}
+			alts = append(alts, Alt{Cond: And(conds...), Tag: fmt.Sprintf("fields=%d", k), Do: func(s2 *State) { mk(s2, ps) }})
+		}
+		return e.branch(st, alts)
+	})
+}
+
+// strconv.Quote: identity wrapped in quotes for printable ASCII without '"' and '\', UF otherwise
+func (e *Engine) quote(st *State, s *Term) *Term {
+	// exact for short printable-ASCII strings: per character escaping of '"' and '\\'
+	if !s.K {
+		ln := StrLen(s)
+		printable := &Term{S: "(str.in_re " + s.S + " (re.* (re.range \" \" \"~\")))", Sort: SBool}
+		if ln.Hi != nil && ln.Hi.IsInt64() && ln.Hi.Int64() <= 8 && e.ask(Not(printable)) == "unsat" {
+			parts := []*Term{KStr("\"")}
+			for i := 0; i < int(ln.Hi.Int64()); i++ {
+				ch := &Term{S: "(str.at " + s.S + " " + KInt64(int64(i)).S + ")", Sort: SStr}
+				parts = append(parts, Ite(Eq(ch, KStr("\"")), KStr("\\\""), Ite(Eq(ch, KStr("\\")), KStr("\\\\"), ch)))
+			}
+			parts = append(parts, KStr("\""))
+			e.res.Intrinsics["<exact> strconv.Quote (printable ASCII, length <= 8)"]++
+			return e.name(Concat(parts...))
+		}
+	}
+	r := e.ufCall(st, "quote", s)[0]
+	if !s.K {
+		plain := &Term{S: "(str.in_re " + s.S + " (re.* (re.union (re.range \" \" \"!\") (re.range \"#\" \"[\") (re.range \"]\" \"~\"))))", Sort: SBool}
+		e.sol.Assert(Implies(plain, Eq(r, Concat(KStr("\""), s, KStr("\"")))))
+		e.sol.Assert(And(StrPrefixOf(KStr("\""), r), StrSuffixOf(KStr("\""), r), Ge(StrLen(r), Add(StrLen(s), KInt64(2)))))
+		// a quote or backslash in s is escaped: the result contains a backslash
+		e.sol.Assert(Implies(Or(StrContains(s, KStr("\"")), StrContains(s, KStr("\\"))), StrContains(r, KStr("\\"))))
+	}
+	return r
+}
+
+func init() {
+	reg("fmt.Sprintf", func(e *Engine, st *State, c *callCtx) bool {
+		f := c.str(e, st, 0)
+		if !f.K {
+			unsup("fmt.Sprintf with non-constant format")
+		}
+		sl := c.args[1].(SliceVal)
+		var args []Value
+		if sl.Obj != 0 {
+			if !sl.Len.K || !sl.Off.K {
+				unsup("fmt.Sprintf with symbolic argument count")
+			}
+			arr := e.backing(st, sl.Obj).(ArrayVal)
+			off := int(sl.Off.I.Int64())
+			args = arr.E[off : off+int(sl.Len.I.Int64())]
+		}
+		var parts []*Term
+		ai := 0
+		format := f.Str
+		for i := 0; i < len(format); {
+			if format[i] != '%' {
+				j := i
+				for j < len(format) && format[j] != '%' {
+					j++
+				}
+				parts = append(parts, KStr(format[i:j]))
+				i = j
+				continue
+			}
+			j := i + 1
+			for j < len(format) && strings.IndexByte("0123456789.+-# ", format[j]) >= 0 {
+				j++
+			}
+			if j >= len(format) {
+				unsup("fmt.Sprintf: bad format %q", format)
+			}
+			verb, spec := format[j], format[i:j+1]
+			i = j + 1
+			if verb == '%' {
+				parts = append(parts, KStr("%"))
+				continue
+			}
+			if ai >= len(args) {
+				parts = append(parts, KStr("%!"+string(verb)+"(MISSING)"))
+				continue
+			}
+			a := args[ai]
+			ai++
+			parts = append(parts, e.fmtArg(st, spec, verb, a))
+		}
+		c.ret(st, e.name(Concat(parts...)))
+		return true
+	})
+}
+
+func (e *Engine) fmtArg(st *State, spec string, verb byte, a Value) *Term {
+	iv, ok := a.(IfaceVal)
+	if !ok {
+		unsup("fmt argument %s", describe(a))
+	}
+	if iv.T == nil {
+		return KStr("%!" + string(verb) + "(<nil>)")
+	}
+	plain := len(spec) == 2
+	switch v := iv.V.(type) {
+	case *Term:
+		switch v.Sort {
+		case SStr:
+			if plain && (verb == 's' || verb == 'v') {
+				return v
+			}
+			if plain && verb == 'q' {
+				return e.quote(st, v)
+			}
+		case SInt:
+			if plain && (verb == 'd' || verb == 'v') {
+				return e.itoa(v)
+			}
+		case SBool:
+			if plain && (verb == 't' || verb == 'v') {
+				return Ite(v, KStr("true"), KStr("false"))
+			}
+		}
+	case StrBytes:
+		if plain && (verb == 's' || verb == 'v') {
+			return e.toSMTString(st, v)
+		}
+	case FloatVal:
+		if v.Kind.K && v.V.K && v.Kind.I.Sign() == 0 {
+			f, _ := v.V.R.Float64()
+			return KStr(fmt.Sprintf(spec, f))
+		}
+		unsup("fmt: formatting a symbolic float with %s", spec)
+	case PtrVal:
+		if strings.HasSuffix(iv.T.String(), "net/url.URL") && plain && (verb == 's' || verb == 'v') {
+			if v.Obj == 0 {
+				return KStr("<nil>")
+			}
+			u := e.load(st, v).(StructVal)
+			ut := iv.T.(*types.Pointer).Elem()
+			str := func(n string) *Term { return e.toSMTString(st, u.F[structField(ut, n)]) }
+			if up, ok := u.F[structField(ut, "User")].(PtrVal); !ok || up.Obj != 0 {
+				unsup("fmt: url.URL with userinfo")
+			}
+			return e.ufCall(st, "urlstring", str("Scheme"), str("Opaque"), str("Host"), str("Path"), str("RawPath"), u.F[structField(ut, "ForceQuery")].(*Term), str("RawQuery"), str("Fragment"), str("RawFragment"))[0]
+		}
+	}
+	unsup("fmt: %s of %s", spec, iv.T)
+	return nil
+}
+
+func init() {
+	reg("os.Expand", func(e *Engine, st *State, c *callCtx) bool {
+		s := c.str(e, st, 0)
+		if s.K && !strings.Contains(s.Str, "$") {
+			c.ret(st, s)
+			return true
+		}
+		if e.ask(StrContains(s, KStr("$"))) == "unsat" {
+			c.ret(st, s)
+			return true
+		}
+		unsup("os.Expand on a string that may contain '$'")
+		return false
+	})
 }
